@@ -291,7 +291,7 @@ def replay_failures(obl, out):
                               "#[%s(..)] on a field is %s although the documentation %s: #[derive_ex(%s)] %s" % (
                                   name, "kept" if doc_owned else "stripped", "assigns it to a derived trait" if doc_owned else "does not assign it to any derived trait", ", ".join(traits), item))
             else:
-                out.broken.append("UNCONFIRMED counterexample for %s" % label)
+                e3.not_reproduced(out, model, "for %s" % label)
         else:
             probes.structural(out, "extend", "HelperAttributeKinds::extend does not raise exactly the flags of the derived traits (%s)" % label, 'C14.kinds')
 
@@ -321,7 +321,7 @@ def replay_remove(out, label, model, info):
         path = e3.write_replay(PID, "remove-%s" % key.split("|")[1], case)
         out.violation(key, path, "the re-emitted item does not carry exactly the attributes that are not derive_ex's, in their order: #[derive_ex(PartialEq)] %s -> %s" % (item, obs.get("item0", "")[:160]))
     else:
-        out.broken.append("UNCONFIRMED counterexample for %s: %s" % (label, item))
+        e3.not_reproduced(out, model, "for %s: %s" % (label, item))
 
 
 def run(tier):
@@ -329,13 +329,17 @@ def run(tier):
     out = common.Outcome(PID)
     eng = mir_engine.Engine()
     obl = e3.Obligations(PID)
+    steps = [(check_is_match, ()), (check_extend, (2 if tier == "quick" else 3,)), (check_remove_attrs, (3 if tier == "quick" else 5,)), (check_entry, ("struct",)),
+             (check_entry, ("enum",)), (check_lib_entries, ())]
+    for f, args in steps:
+        # one part the executor cannot follow (a function renamed or restructured) must not take the other parts down
+        try:
+            f(eng, obl, out, *args)
+        except mx.Inconclusive as e:
+            out.inconclusive.append("fn=%s reason=%s" % (f.__name__, e))
+        except Exception as e:  # noqa
+            out.inconclusive.append("fn=%s reason=executor error %s: %s" % (f.__name__, type(e).__name__, str(e)[:200]))
     try:
-        check_is_match(eng, obl, out)
-        check_extend(eng, obl, out, 2 if tier == "quick" else 3)
-        check_remove_attrs(eng, obl, out, 3 if tier == "quick" else 5)
-        check_entry(eng, obl, out, "struct")
-        check_entry(eng, obl, out, "enum")
-        check_lib_entries(eng, obl, out)
         replay_failures(obl, out)
         if tier == "thorough":
             e3.cross_check_solvers(obl, out)
